@@ -487,10 +487,28 @@ def case_groups(ctx, rng, state):
     if rng.random() < 0.3:
         Ef[int(rng.integers(nE))] = Eall.reshape(-1)[int(rng.integers(Eall.size))]   # on a corner
         Ef = np.sort(Ef)
-    Ef = np.ascontiguousarray(Ef)
     thresh = [-1, 0.0, 1e-4, 0.05 * scale][int(rng.integers(4))]
+    straddle = None
+    if nb >= 2 and rng.random() < 0.35:
+        # hostile for the sea / anti-sea completion: two bands grouped by the threshold (centres closer than it),
+        # the first Fermi level above the whole lower band but inside the upper one (or the last Fermi level
+        # below the whole upper band but inside the lower one)
+        ib = int(rng.integers(nb - 1))
+        gap = float(eCenter[0, ib + 1] - eCenter[0, ib])
+        thresh = 1.5 * gap + 1e-6 * scale
+        bmax = Eall[0].max(axis=0)
+        bmin = Eall[0].min(axis=0)
+        if rng.random() < 0.5 and bmax[ib] < bmax[ib + 1]:
+            Ef = np.sort(np.concatenate([[0.5 * (bmax[ib] + bmax[ib + 1])], rng.uniform(bmax[ib + 1], hi + 0.1 * (hi - lo), nE - 1)]))
+            straddle = "low"
+        elif bmin[ib] < bmin[ib + 1]:
+            Ef = np.sort(np.concatenate([rng.uniform(lo - 0.1 * (hi - lo), bmin[ib], nE - 1), [0.5 * (bmin[ib] + bmin[ib + 1])]]))
+            straddle = "high"
+        if straddle:
+            ctx.count("groups_fermi_edge_inside_a_group")
+    Ef = np.ascontiguousarray(Ef)
     kramers = bool(nb % 2 == 0 and rng.random() < 0.25)
-    wit = dict(paral=paral, nk=nk, nb=nb, mode=mode, scale=scale, Efermi=Ef, degen_thresh=thresh, Kramers=kramers,
+    wit = dict(paral=paral, nk=nk, nb=nb, mode=mode, scale=scale, Efermi=Ef, degen_thresh=thresh, Kramers=kramers, straddle=straddle,
                eCenter=eCenter, eCorners=eCorners)
 
     # exact band fractions
@@ -539,7 +557,7 @@ def case_groups(ctx, rng, state):
                           f"total der={der} paral={paral}", dict(wit, ik=ik, der=der, groups=sorted(res[ik])), Ef)
     cut = bool(np.any((lowb > 1e-6) & (upb < 1 - 1e-6)))
     if cut:
-        ctx.nontrivial(("groups", paral, nk, nb, mode, scale, thresh, kramers, nE))
+        ctx.nontrivial(("groups", paral, nk, nb, mode, scale, round(float(thresh), 6), kramers, nE, straddle))
     ctx.sample({k: v for k, v in wit.items() if k not in ("eCenter", "eCorners")})
 
 
@@ -719,7 +737,7 @@ def case(ctx, rng, idx, state):
 if __name__ == "__main__":
     harness.main(
         PROP, "exploration", case, setup_fn=setup,
-        tiers=dict(quick=dict(cases=328, shards=8, time=240), thorough=dict(cases=9600, shards=16, time=1000)),
+        tiers=dict(quick=dict(cases=640, shards=8, time=240), thorough=dict(cases=100000, shards=16, time=1100)),
         rule="corner sets: random / exact pair, two pairs, triple, quadruple / near-degenerate gaps 1e-13..1e-3 / chains, "
              "magnitudes 0..1e8, all 24 corner orders, Fermi arrays with points on corners, one ulp beside them, inside "
              "every piece and far outside; a direct case is non-trivial if a Fermi level lies strictly inside the corner "
@@ -732,6 +750,6 @@ if __name__ == "__main__":
                      "the parallelepiped is decomposed into centre + two triangles per face along the (0,0)-(1,1) face diagonal",
                      "band energies of synthetic TetraWeights objects are sorted by band at every corner (as eigenvalues are)"],
         required_counters=("direct_accurate", "direct_polynomial_der0", "direct_der1", "direct_der2", "direct_der3",
-                           "groups_paral", "groups_tetra", "insitu_Grid", "insitu_GridTetra",
+                           "groups_paral", "groups_tetra", "groups_fermi_edge_inside_a_group", "insitu_Grid", "insitu_GridTetra",
                            "monitor_weights_tetra_calls", "monitor_bracket_evaluations", "coincident_large_magnitude"),
     )
